@@ -133,9 +133,9 @@ func c02Envs(thorough bool) []EnvCfg {
 			}
 		}
 	}
-	// a source that answers 50 Reads in a row with (0, nil) before every piece of data (well below any give-up threshold a
+	// a source that answers 30 Reads in a row with (0, nil) before every piece of data (well below any give-up threshold a
 	// reader may reasonably have; bufio's is 100)
-	r = append(r, EnvCfg{Chunk: 7, ZeroReads: 50}, EnvCfg{Chunk: 4097, ZeroReads: 50, ErrWithLast: true, AfterErr: 1})
+	r = append(r, EnvCfg{Chunk: 7, ZeroReads: 30}, EnvCfg{Chunk: 4097, ZeroReads: 30, ErrWithLast: true, AfterErr: 1})
 	// sources that also expose Len() = bytes readable right now (connections, ring buffers): a reader that consults it
 	// must not mistake "nothing more right now" for "nothing more"
 	for _, ch := range []int{1, 100, 4097} {
